@@ -454,7 +454,11 @@ class Node(object):
             for server in self.servers:
                 self.all_servers_total.append(server.total_time)
                 self.all_servers_busy.append(server.busy_time)
-            self.server_utilisation = sum(self.all_servers_busy) / sum(self.all_servers_total)
+            total_time = sum(self.all_servers_total)
+            if total_time > 0:
+                self.server_utilisation = sum(self.all_servers_busy) / total_time
+            else:
+                self.server_utilisation = None
 
     def finish_service(self):
         """
